@@ -23,12 +23,19 @@ def rule_readlink(rep, d, fn):
                              "path must be built from the returned length (or the buffer be zeroed and one byte larger than the length "
                              "passed), and the returned length must be compared with the capacity so that a longer path is retried or "
                              "rejected rather than cut")
-    sites = list(calls_named(fn, "readlink"))
+    # every readlink call of the header, in whichever function it lives (executable_path itself or a helper it was moved into)
+    sites = []
+    for f_ in ir.functions(d):
+        if ir.body(f_) is not None and "xsystem.hpp" in (d.where(f_) or "") and not ir.is_template_pattern(d, f_):
+            for call, t in calls_named(f_, "readlink"):
+                if not any(call is c0 for _, c0, _ in sites):
+                    sites.append((f_, call, t))
     if not sites:
         rep.inconclusive("C20.readlink", "executable_path", "readlink call", where=d.where(fn), detail="no readlink call found on this platform")
         return
-    for i, (call, t) in enumerate(sites):
-        _readlink_site(rep, d, fn, call, t, "executable_path" if len(sites) == 1 else "executable_path [readlink call %d of %d]" % (i + 1, len(sites)))
+    for i, (f_, call, t) in enumerate(sites):
+        nm = "executable_path" if f_ is fn else "executable_path via %s" % f_.get("name")
+        _readlink_site(rep, d, f_, call, t, nm if len(sites) == 1 else "%s [readlink call %d of %d]" % (nm, i + 1, len(sites)))
 
 
 def _readlink_site(rep, d, fn, call, t, name):
@@ -42,11 +49,19 @@ def _readlink_site(rep, d, fn, call, t, name):
     if par is not None and par.get("kind") == "VarDecl":
         resvar = par.get("name")
     text_fn = d.text(fn)
+    from .. import fstring as fs
+    scalar = {v_.get("name") for v_ in ir.walk_expr(fn) if v_.get("kind") == "VarDecl" and trange.type_range(ir.qtype(v_)) is not None or
+              (v_.get("kind") == "VarDecl" and ir.qtype(v_).replace("const ", "").strip() in ("std::size_t", "size_t", "ssize_t", "std::string::size_type"))}
+    loc = {k_: v_ for k_, v_ in fs.local_sx(fn).items() if k_ != resvar and k_ in scalar}
+    _sx = ir.sx
+
+    def SX(n):
+        return fs.subst_locals(_sx(n), loc)          # hoisted locals (the converted length, the capacity) are read through
     # (a) failure test
     fail_tests = []
     for n in ir.walk_expr(fn):
         if n.get("kind") == "BinaryOperator" and n.get("opcode") in ("==", "!=", "<", ">=", "<=", ">"):
-            s = ir.sx(n)
+            s = SX(n)
             sides = [s[2], s[3]]
             is_res = lambda x: (resvar is not None and x == ("ref", resvar)) or (x[0] == "call" and x[1] == ("ref", "readlink"))
             strip = lambda x: strip(x[3]) if x[0] == "cast" else x
@@ -66,19 +81,25 @@ def _readlink_site(rep, d, fn, call, t, name):
             bufname = s[1]
             break
     counted_use = False
+    resized_to_len = False
     cstring_use = None
     for n in ir.walk_expr(fn):
         k = n.get("kind")
-        if k in ("CXXMemberCallExpr", "CXXOperatorCallExpr", "CXXConstructExpr"):
-            s = ir.sx(n)
+        if k in ("CXXMemberCallExpr", "CXXOperatorCallExpr", "CXXConstructExpr", "CXXTemporaryObjectExpr", "CXXFunctionalCastExpr"):
+            s = SX(n)
             refs = [x for x in ir.subterms(s) if x == ("ref", bufname)]
             if not refs or n is call or any(c is call for c in ir.walk_expr(n)):
                 continue
             uses_len = resvar is not None and any(x == ("ref", resvar) for x in ir.subterms(s))
             if s[0] == "call" and s[1][0] == "mem" and s[1][2] in ("assign", "append") and uses_len:
                 counted_use = True
+            elif s[0] == "call" and s[1][0] == "mem" and s[1][2] == "resize" and s[1][1] == ("ref", bufname) and uses_len:
+                counted_use = True          # the buffer string itself is cut to the returned length before it is used
+                resized_to_len = True
             elif s[0] == "construct" and uses_len:
                 counted_use = True
+            elif resized_to_len and s[0] == "bin" and s[1] == "=":
+                pass
             elif (s[0] == "bin" and s[1] == "=" and not uses_len and any(x == ("ref", bufname) for x in ir.subterms(s[3]))) or \
                     (s[0] == "call" and s[1][0] == "mem" and s[1][2] in ("assign", "append") and not uses_len and len(s) == 3):
                 cstring_use = n
@@ -119,11 +140,11 @@ def _readlink_site(rep, d, fn, call, t, name):
             if n.get("kind") != "IfStmt":
                 continue
             ks = ir.ekids(n)
-            uses = [c for c in ir.walk_expr(ks[1]) if c.get("kind") in ("CXXMemberCallExpr", "CXXConstructExpr") and resvar is not None
-                    and any(x == ("ref", resvar) for x in ir.subterms(ir.sx(c))) and any(x == ("ref", bufname) for x in ir.subterms(ir.sx(c)))]
+            uses = [c for c in ir.walk_expr(ks[1]) if c.get("kind") in ("CXXMemberCallExpr", "CXXConstructExpr", "CXXTemporaryObjectExpr") and resvar is not None
+                    and any(x == ("ref", resvar) for x in ir.subterms(SX(c))) and any(x == ("ref", bufname) for x in ir.subterms(SX(c)))]
             if not uses:
                 continue
-            cases = dnf(nnf(ir.sx(ks[0])))
+            cases = dnf(nnf(SX(ks[0])))
             ok_all = True
             for conj in cases:
                 facts = []
@@ -157,56 +178,153 @@ def _readlink_site(rep, d, fn, call, t, name):
 def rule_prefix(rep, d, fn):
     rep.rule("C20.prefix", "prefix_path() = executable_path() cut at the last separator twice (two find_last_of(separator) cuts chained "
                            "on the previous result, each substr starting at 0) with the separator appended exactly once")
+    from .. import norm
     name = "prefix_path"
     where = d.where(fn)
-    decls = {}
-    order = []
-    for n in ir.walk_expr(ir.body(fn)):
-        if n.get("kind") == "VarDecl" and ir.ekids(n):
-            decls[n.get("name")] = ir.sx(ir.ekids(n)[-1])
-            order.append(n.get("name"))
-    rets = [s for s in ir.walk_expr(ir.body(fn)) if s.get("kind") == "ReturnStmt"]
-    if len(rets) != 1:
-        rep.inconclusive("C20.prefix", name, "shape", where=where, detail="expected one return")
-        return
-    rt = ir.sx(ir.ekids(rets[0])[0])
-
-    def resolve(t, depth=0):
-        if depth > 40:
-            return t
-        if t[0] == "ref" and t[1] in decls:
-            return resolve(decls[t[1]], depth + 1)
-        if t[0] == "cast":
-            return resolve(t[3], depth)
-        return (t[0],) + tuple(resolve(x, depth + 1) if isinstance(x, tuple) else x for x in t[1:])
-    full = resolve(rt)
-    sep = decls.get("separator")
+    # the separator: a char local / parameter-free constant whose value is '/'
+    sep_names = set()
     sep_val = None
     for n in ir.walk_expr(ir.body(fn)):
-        if n.get("kind") == "VarDecl" and n.get("name") == "separator":
+        if n.get("kind") == "VarDecl" and ir.qtype(n).replace("const ", "").strip() == "char" and ir.ekids(n):
             iv = trange.interval(ir.ekids(n)[-1])
-            sep_val = iv[0] if iv and iv[0] == iv[1] else None
+            if iv and iv[0] == iv[1]:
+                sep_names.add(n.get("name"))
+                sep_val = iv[0]
     if sep_val != ord("/"):
         rep.violates("C20.prefix", name, "separator", where=where, detail="separator on this platform must be '/', found code %s" % sep_val)
     else:
         rep.holds("C20.prefix", name, "separator", where=where)
-    sepT = resolve(("ref", "separator"))
+    # abstract values: ("EXE",), ("cut", s) = s up to (not including) its last separator, the whole of s when there is none,
+    # ("app", s) = s + separator, ("flo", s) = s.find_last_of(separator), ("?", text) = anything else
+    env = {}
 
-    def cut(inner):
-        return ("call", ("mem", inner, "substr"), ("lit", "0"), ("call", ("mem", inner, "find_last_of"), sepT))
-    exe = ("call", ("ref", "executable_path"))
-    want = ("bin", "+", cut(cut(exe)), sepT)
-    # strip default-argument markers
-    def clean(t):
-        if not isinstance(t, tuple):
-            return t
-        return tuple(clean(x) for x in t if x != ("defaultarg",))
-    got = clean(full)
-    if got == want:
-        rep.holds("C20.prefix", name, "two chained cuts", where=where, detail=ir.show(got)[:160])
+    def is_sep(t):
+        t = norm.uncast(t)
+        if t[0] == "val":
+            return t[1] == ("SEP",)
+        return (t[0] == "ref" and t[1] in sep_names) or (t[0] == "lit" and str(t[1]) in ("47", "'/'"))
+
+    def helper_body(nm):
+        for f in ir.functions(d, nm):
+            if ir.body(f) is not None and "/xtl/" in (d.where(f) or ""):
+                ks = ir.kids(ir.body(f))
+                if len(ks) == 1 and ks[0].get("kind") == "ReturnStmt" and ir.ekids(ks[0]):
+                    return f, ir.sx(ir.ekids(ks[0])[0])
+        return None, None
+
+    def subst(x, m):
+        if not isinstance(x, tuple):
+            return x
+        if x[0] == "ref" and x[1] in m:
+            return ("val", m[x[1]])
+        return tuple(subst(y, m) if isinstance(y, tuple) else y for y in x)
+
+    def ev(t, depth=0):
+        t = norm.uncast(t)
+        if t[0] == "val":
+            return t[1]
+        if t[0] == "ref":
+            if t[1] in env:
+                return env[t[1]]
+            if t[1] in sep_names:
+                return ("SEP",)
+            if str(t[1]).split("::")[-1] == "npos":
+                return ("NPOS",)
+            return ("?", t[1])
+        if t[0] == "lit":
+            return ("NPOS",) if str(t[1]) in ("18446744073709551615", "-1") else (("SEP",) if is_sep(t) else ("lit", str(t[1])))
+        if t[0] == "mem" and t[2] == "npos":
+            return ("NPOS",)
+        t2 = tuple(x for x in t if x != ("defaultarg",))
+        if t2[0] == "call":
+            callee = t2[1]
+            args = t2[2:]
+            if callee == ("ref", "executable_path") and not args:
+                return ("EXE",)
+            if callee[0] == "mem" and callee[2] == "find_last_of" and len(args) >= 1 and is_sep(args[0]):
+                return ("flo", ev(callee[1], depth))
+            if callee[0] == "mem" and callee[2] in ("find_last_of", "rfind", "find", "find_first_of") and len(args) >= 1:
+                return ("flox", ev(callee[1], depth), ir.show(t2)[:50])       # a cut position, but not the last separator
+            if callee[0] == "mem" and callee[2] in ("rfind",) and len(args) >= 1 and is_sep(args[0]):
+                return ("flo", ev(callee[1], depth))
+            if callee[0] == "mem" and callee[2] == "substr" and len(args) == 2 and norm.int_of(args[0]) == 0:
+                base = ev(callee[1], depth)
+                pos_ = ev(args[1], depth)
+                if pos_ == ("flo", base):
+                    return ("cut", base)
+                if pos_[0] == "flox" and pos_[1] == base:
+                    return ("cutx", base, pos_[2])
+                return ("?", ir.show(t2)[:60])
+            nm = str(callee[1]).split("::")[-1] if callee[0] == "ref" else None
+            if nm and depth < 4:
+                f, body = helper_body(nm)
+                if f is not None and len(ir.params(f)) == len(args):
+                    m = {p_.get("name"): ev(a_, depth) for p_, a_ in zip(ir.params(f), args)}
+                    return ev(subst(body, m), depth + 1)
+            return ("?", ir.show(t2)[:60])
+        if t2[0] == "cond":
+            # npos == cut ? s : s.substr(0, cut)  ==  s.substr(0, cut)  (substr clamps npos to the end)
+            c = norm.norm_cmp(t2[1], lambda x: ev(x, depth)[0] == "flo")
+            if c is not None and c[0] in ("==", "!=") and ev(c[2], depth) == ("NPOS",):
+                base = ev(c[1], depth)[1]
+                whole, cutv = (t2[2], t2[3]) if c[0] == "==" else (t2[3], t2[2])
+                if ev(whole, depth) == base and ev(cutv, depth) == ("cut", base):
+                    return ("cut", base)
+            return ("?", ir.show(t2)[:60])
+        if t2[0] == "bin" and t2[1] == "+":
+            a_, b_ = ev(t2[2], depth), ev(t2[3], depth)
+            if b_ == ("SEP",):
+                return ("app", a_)
+            return ("?", ir.show(t2)[:60])
+        if t2[0] == "construct" and len(t2) == 3:
+            return ev(t2[2], depth)
+        return ("?", ir.show(t2)[:60])
+    result = None
+    straight = True
+    for s_ in ir.kids(ir.body(fn)):
+        k = s_.get("kind")
+        if k == "DeclStmt":
+            for v in ir.kids(s_):
+                if v.get("kind") == "VarDecl" and ir.ekids(v) and v.get("name") not in sep_names:
+                    env[v.get("name")] = ev(ir.sx(ir.ekids(v)[-1]))
+        elif k == "ReturnStmt":
+            result = ev(ir.sx(ir.ekids(s_)[0])) if ir.ekids(s_) else None
+        elif k in ("CompoundAssignOperator", "CXXOperatorCallExpr", "CXXMemberCallExpr", "BinaryOperator", "ExprWithCleanups"):
+            t = norm.uncast(ir.sx(s_))
+            if t[0] == "bin" and t[1] == "+=" and norm.uncast(t[2])[0] == "ref" and is_sep(t[3]):
+                env[norm.uncast(t[2])[1]] = ("app", env.get(norm.uncast(t[2])[1], ("?", "uninitialised")))
+            elif t[0] == "call" and t[1][0] == "mem" and t[1][2] in ("push_back", "append") and norm.uncast(t[1][1])[0] == "ref" and (len(t) == 3 and is_sep(t[2]) or (len(t) == 4 and norm.int_of(t[2]) == 1 and is_sep(t[3]))):
+                nm_ = norm.uncast(t[1][1])[1]
+                env[nm_] = ("app", env.get(nm_, ("?", "uninitialised")))
+            elif t[0] == "bin" and t[1] == "=" and norm.uncast(t[2])[0] == "ref":
+                env[norm.uncast(t[2])[1]] = ev(t[3])
+            else:
+                straight = False
+        elif k not in ("NullStmt",):
+            straight = False
+    want = ("app", ("cut", ("cut", ("EXE",))))
+
+    def sh(v):
+        if v is None:
+            return "nothing"
+        if v[0] == "EXE":
+            return "executable_path()"
+        if v[0] == "cut":
+            return "cut(%s)" % sh(v[1])
+        if v[0] == "app":
+            return "%s + separator" % sh(v[1])
+        if v[0] == "cutx":
+            return "%s cut at `%s`" % (sh(v[1]), v[2])
+        return str(v[-1])
+
+    def unknown(v):
+        return v is None or v[0] == "?" or (len(v) > 1 and isinstance(v[1], tuple) and unknown(v[1]))
+    if result == want and straight:
+        rep.holds("C20.prefix", name, "two chained cuts", where=where, detail=sh(result))
+    elif not straight or unknown(result):
+        rep.inconclusive("C20.prefix", name, "two chained cuts", where=where, detail="the body is not a straight-line composition of cuts that can be evaluated: `%s`" % sh(result))
     else:
-        rep.violates("C20.prefix", name, "two chained cuts", where=where,
-                     detail="returns `%s`; expected `%s`" % (ir.show(got)[:220], ir.show(want)[:220]))
+        rep.violates("C20.prefix", name, "two chained cuts", where=where, detail="returns `%s`; expected `%s` (cut = everything before the last separator)" % (sh(result), sh(want)))
 
 
 def rule_endian(rep, d, fn):
@@ -220,57 +338,50 @@ def rule_endian(rep, d, fn):
             iv = trange.interval(ir.ekids(n)[-1])
             if iv and iv[0] == iv[1] and iv[0] > 255:
                 probe = (n.get("name"), iv[0], ir.qtype(n))
+    XTL = {"big_endian": 0, "little_endian": 1, "mixed": 2}
+    STD = {"little": 1234, "big": 4321, "native": 1234}
+
+    def fold(n):
+        n0 = n
+        while n.get("kind") in ir.WRAPPERS or n.get("kind") in ("ImplicitCastExpr", "CXXStaticCastExpr", "CStyleCastExpr", "CXXFunctionalCastExpr"):
+            kk = ir.ekids(n)
+            if not kk:
+                return None
+            n = kk[-1]
+        k = n.get("kind")
+        ks = ir.ekids(n)
+        if k == "DeclRefExpr":
+            rd = n.get("referencedDecl") or {}
+            if rd.get("kind") == "EnumConstantDecl":
+                nm = rd.get("name")
+                q = ir.qtype(n)
+                if "std::endian" in q:
+                    return STD.get(nm)
+                return XTL.get(nm)
+            return None
+        if k in ("IntegerLiteral",):
+            return int(n.get("value"))
+        if k == "CXXBoolLiteralExpr":
+            return 1 if n.get("value") else 0
+        if k == "BinaryOperator" and n.get("opcode") in ("==", "!="):
+            a, b = fold(ks[0]), fold(ks[1])
+            if a is None or b is None:
+                return None
+            return int((a == b) == (n.get("opcode") == "=="))
+        if k == "ConditionalOperator":
+            c = fold(ks[0])
+            return None if c is None else fold(ks[1] if c else ks[2])
+        if k == "UnaryOperator" and n.get("opcode") == "!":
+            a = fold(ks[0])
+            return None if a is None else int(not a)
+        return None
+
     sw = [n for n in ir.walk_expr(ir.body(fn)) if n.get("kind") == "SwitchStmt"]
-    if len(sw) == 1:
-        inside = set(id(x) for x in ir.walk_expr(sw[0]))
-        outside = [r for r in ir.walk_expr(ir.body(fn)) if r.get("kind") == "ReturnStmt" and id(r) not in inside]
-        if outside:
-            rep.violates("C20.endian", name, "single decision", where=d.where(outside[0]),
-                         detail="`%s` returns without inspecting the probe byte (in this configuration the answer does not come from the platform's byte order)"
-                                % d.text(outside[0])[:60])
-        else:
-            rep.holds("C20.endian", name, "single decision", where=where, detail="every return is a case of the probe switch")
-    if len(sw) == 0:
+    has_copy = bool(list(calls_named(fn, "memcpy"))) or any(n.get("kind") == "CallExpr" and len(ir.ekids(n)) == 2 and (trange.interval(ir.ekids(n)[1]) or (0, 0))[0] > 255 for n in ir.walk_expr(ir.body(fn)))
+    if len(sw) == 0 and not has_copy:
         # no run-time probe in this configuration: a compile-time answer is acceptable only if it folds to this target's byte order
         # (x86-64: little endian; std::endian::native == std::endian::little)
         rets = [r for r in ir.walk_expr(ir.body(fn)) if r.get("kind") == "ReturnStmt" and ir.ekids(r)]
-        XTL = {"big_endian": 0, "little_endian": 1, "mixed": 2}
-        STD = {"little": 1234, "big": 4321, "native": 1234}
-
-        def fold(n):
-            n0 = n
-            while n.get("kind") in ir.WRAPPERS or n.get("kind") in ("ImplicitCastExpr", "CXXStaticCastExpr", "CStyleCastExpr", "CXXFunctionalCastExpr"):
-                kk = ir.ekids(n)
-                if not kk:
-                    return None
-                n = kk[-1]
-            k = n.get("kind")
-            ks = ir.ekids(n)
-            if k == "DeclRefExpr":
-                rd = n.get("referencedDecl") or {}
-                if rd.get("kind") == "EnumConstantDecl":
-                    nm = rd.get("name")
-                    q = ir.qtype(n)
-                    if "std::endian" in q:
-                        return STD.get(nm)
-                    return XTL.get(nm)
-                return None
-            if k in ("IntegerLiteral",):
-                return int(n.get("value"))
-            if k == "CXXBoolLiteralExpr":
-                return 1 if n.get("value") else 0
-            if k == "BinaryOperator" and n.get("opcode") in ("==", "!="):
-                a, b = fold(ks[0]), fold(ks[1])
-                if a is None or b is None:
-                    return None
-                return int((a == b) == (n.get("opcode") == "=="))
-            if k == "ConditionalOperator":
-                c = fold(ks[0])
-                return None if c is None else fold(ks[1] if c else ks[2])
-            if k == "UnaryOperator" and n.get("opcode") == "!":
-                a = fold(ks[0])
-                return None if a is None else int(not a)
-            return None
         if len(rets) == 1:
             v = fold(ir.ekids(rets[0])[0])
             if v == XTL["little_endian"]:
@@ -288,56 +399,180 @@ def rule_endian(rep, d, fn):
                          detail="in this configuration (include order / predefined macros) the function is just `%s`: the answer is taken from a preprocessor test, "
                                 "not from the byte order of the machine" % d.text(consts[0])[:60])
             return
-    if probe is None or len(sw) != 1:
-        rep.inconclusive("C20.endian", name, "shape", where=where, detail="probe constant / single switch not found")
+    # ---- run-time probe: decided by evaluating the function for each value the inspected byte can have
+    from .. import flow, norm
+    from .. import fstring as fs
+    probe_val = probe[1] if probe else None
+    # the inspected byte may be produced by a library helper (leading_byte(0x01020304)): the helper is the probe then
+    work_fn, subject_is_call = fn, None
+    if probe is None:
+        for n in ir.walk_expr(ir.body(fn)):
+            if n.get("kind") == "CallExpr":
+                c_ = ir.strip(ir.ekids(n)[0])
+                tgt = d.by_id.get((c_.get("referencedDecl") or {}).get("id"))
+                if tgt is not None and ir.body(tgt) is not None and "/xtl/" in (d.where(tgt) or "") and len(ir.ekids(n)) == 2:
+                    iv = trange.interval(ir.ekids(n)[1])
+                    if iv and iv[0] == iv[1] and iv[0] > 255:
+                        probe_val = iv[0]
+                        subject_is_call = (n, tgt)
+    if probe_val is None:
+        rep.inconclusive("C20.endian", name, "shape", where=where, detail="probe constant not found")
         return
-    width = 4 if "int" in probe[2] and "64" not in probe[2] else 8
-    msb = (probe[1] >> (8 * (width - 1))) & 0xFF
-    lsb = probe[1] & 0xFF
-    bytes_ = [(probe[1] >> (8 * i)) & 0xFF for i in range(width)]
+    width = 4 if probe_val < 2 ** 32 else 8
+    bytes_ = [(probe_val >> (8 * i)) & 0xFF for i in range(width)]
+    msb, lsb = bytes_[-1], bytes_[0]
     if len(set(bytes_)) != width:
-        rep.violates("C20.endian", name, "probe constant", where=where, detail="bytes of the probe %#x are not pairwise distinct" % probe[1])
-    cond = ir.sx(ir.ekids(sw[0])[0])
-    c = cond
-    while c[0] == "cast":
-        c = c[3]
-    idx0 = c[0] == "index" and c[2] == ("lit", "0")
-    (rep.holds if idx0 else rep.violates)("C20.endian", name, "inspected byte", where=d.where(sw[0]),
-                                          detail=ir.show(c) if idx0 else "the switch inspects `%s`, not byte 0 of the copied constant" % ir.show(c))
-    # memcpy of the whole constant into the inspected array
-    mc = list(calls_named(fn, "memcpy"))
-    ok_copy = len(mc) == 1 and any(x == ("ref", probe[0]) for x in ir.subterms(mc[0][1][3]))
+        rep.violates("C20.endian", name, "probe constant", where=where, detail="bytes of the probe %#x are not pairwise distinct" % probe_val)
+    # (1) where the inspected byte comes from: element 0 of an array that received a whole-object copy of the probe
+    src_fn = subject_is_call[1] if subject_is_call else fn
+    pname = probe[0] if probe else ir.params(src_fn)[0].get("name")
+    mc = list(calls_named(src_fn, "memcpy"))
+    arr = None
+    ok_copy = False
+    if len(mc) == 1:
+        t = mc[0][1]
+        dst, srcp = norm.deep_uncast(t[2]), norm.deep_uncast(t[3])
+        if any(x == ("ref", pname) for x in ir.subterms(srcp)):
+            for x in ir.subterms(dst):
+                if x[0] == "ref":
+                    arr = x[1]
+            off_ok = dst in (("ref", arr), ("un", "&", ("index", ("ref", arr), ("lit", "0"))))
+            ok_copy = arr is not None and off_ok
+    if not mc:
+        rep.inconclusive("C20.endian", name, "bytes copied from the probe", where=where, detail="no memcpy of the probe found (a hand-written byte copy is not followed)")
+        return
     (rep.holds if ok_copy else rep.violates)("C20.endian", name, "bytes copied from the probe", where=where,
-                                             detail="memcpy(&btmp[0], &%s, sizeof)" % probe[0] if ok_copy else "the inspected bytes are not a copy of the probe constant")
-    # case table
+                                             detail="memcpy(&%s[0], &%s, sizeof)" % (arr, pname) if ok_copy else "the inspected bytes are not a copy of the probe constant")
+    if not ok_copy:
+        return
+    BYTE0 = ("index", ("ref", arr), ("lit", "0"))
+    if subject_is_call:
+        ks = ir.kids(ir.body(src_fn))
+        rets = [x for x in ir.walk_expr(ir.body(src_fn)) if x.get("kind") == "ReturnStmt" and ir.ekids(x)]
+        rv = norm.deep_uncast(fs.subst_locals(ir.sx(ir.ekids(rets[0])[0]), fs.local_sx(src_fn))) if len(rets) == 1 else None
+        if rv != BYTE0:
+            rep.violates("C20.endian", name, "inspected byte", where=d.where(src_fn), detail="the helper returns `%s`, not byte 0 of the copied constant" % (ir.show(rv) if rv else "?"))
+            return
+    loc = fs.local_sx(fn)
+
+    def is_subject(t):
+        t = norm.deep_uncast(fs.subst_locals(t, loc))
+        if subject_is_call:
+            return t[0] == "call" and str(t[1][1] if t[1][0] == "ref" else "").split("::")[-1] == subject_is_call[1].get("name")
+        return t == BYTE0
+
+    def other_byte(t):
+        t = norm.deep_uncast(fs.subst_locals(t, loc))
+        return t[0] == "index" and t[1] == ("ref", arr) and t[2] != ("lit", "0")
+    # (2) the decision table
+    NAMES = {"big_endian", "little_endian", "mixed"}
     table = {}
-    cur = None
-    def scan(n, label):
-        k = n.get("kind")
-        if k == "CaseStmt":
-            ks = ir.ekids(n)
-            iv = trange.interval(ks[0])
-            label = iv[0] if iv and iv[0] == iv[1] else "?"
-            for c_ in ks[1:]:
-                scan(c_, label)
-            return
-        if k == "DefaultStmt":
-            for c_ in ir.ekids(n):
-                scan(c_, "default")
-            return
-        if k == "ReturnStmt" and label is not None:
-            t = ir.sx(ir.ekids(n)[0])
-            table.setdefault(label, ir.show(t).split("::")[-1])
-            return
-        for c_ in ir.kids(n):
-            scan(c_, label)
-    scan(ir.ekids(sw[0])[-1], None)
-    want = {msb: "big_endian", lsb: "little_endian", "default": "mixed"}
-    if table == want:
-        rep.holds("C20.endian", name, "case table", where=d.where(sw[0]), detail=str(table))
+    problem = None
+    inspected_other = False
+    for v, label in ((msb, "most significant byte first"), (lsb, "least significant byte first"), (0x7F, "neither")):
+        got = set()
+        for path in flow.function_paths(fn, with_ctor_inits=False):
+            feas = True
+            last_assign = {}
+            case_labels = None
+            for st in path:
+                if st[0] == "cond":
+                    c = norm.norm_cmp(ir.sx(st[1]), is_subject)
+                    if c is None:
+                        c2 = norm.norm_cmp(ir.sx(st[1]), other_byte)
+                        if c2 is not None:
+                            inspected_other = True
+                        fv = fold(st[1])          # a compile-time test (std::endian::native == ...): only its actual outcome is feasible
+                        if fv is not None and bool(fv) != st[2]:
+                            feas = False
+                            break
+                        continue
+                    k_ = norm.int_of(c[2])
+                    if k_ is None:
+                        iv = None
+                        continue
+                    truth = {"==": v == k_, "!=": v != k_, "<": v < k_, "<=": v <= k_, ">": v > k_, ">=": v >= k_}[c[0]]
+                    if truth != st[2]:
+                        feas = False
+                        break
+                elif st[0] == "case":
+                    sw_node = None
+                    if st[1] is not None:
+                        p_ = d.parent_of(st[1])
+                        while p_ is not None and p_.get("kind") != "SwitchStmt":
+                            p_ = d.parent_of(p_)
+                        sw_node = p_
+                    # the switch must inspect the subject
+                    labels = set()
+                    if sw_node is not None:
+                        if not is_subject(ir.sx(ir.ekids(sw_node)[0])):
+                            if other_byte(ir.sx(ir.ekids(sw_node)[0])):
+                                inspected_other = True
+                            continue
+                        for x in ir.walk_expr(sw_node):
+                            if x.get("kind") == "CaseStmt":
+                                iv = trange.interval(ir.ekids(x)[0])
+                                if iv and iv[0] == iv[1]:
+                                    labels.add(iv[0])
+                    if st[1] is None:
+                        feas = False if sw_node is None else feas
+                    elif st[1].get("kind") == "DefaultStmt":
+                        feas = v not in labels
+                    else:
+                        iv = trange.interval(ir.ekids(st[1])[0])
+                        feas = iv is not None and iv[0] == iv[1] == v
+                    if not feas:
+                        break
+                elif st[0] == "ev" and st[1].get("kind") == "BinaryOperator" and st[1].get("opcode") == "=":
+                    l_ = ir.strip(ir.ekids(st[1])[0])
+                    if l_.get("kind") == "DeclRefExpr":
+                        last_assign[(l_.get("referencedDecl") or {}).get("name")] = ir.ekids(st[1])[1]
+                elif st[0] == "decl" and ir.ekids(st[1]):
+                    last_assign[st[1].get("name")] = ir.ekids(st[1])[-1]
+            if not feas:
+                continue
+            end = path[-1]
+            if end[0] != "return" or not ir.ekids(end[1]):
+                problem = "a path does not return a value"
+                continue
+
+            def enum_of(n_, depth=0):
+                n_ = ir.strip(n_)
+                while n_.get("kind") in ("ImplicitCastExpr", "ParenExpr") and ir.ekids(n_):
+                    n_ = ir.strip(ir.ekids(n_)[0])
+                if n_.get("kind") == "DeclRefExpr":
+                    rd = n_.get("referencedDecl") or {}
+                    if rd.get("kind") == "EnumConstantDecl":
+                        return rd.get("name")
+                    if rd.get("name") in last_assign and depth < 4:
+                        return enum_of(last_assign[rd.get("name")], depth + 1)
+                if n_.get("kind") == "ConditionalOperator":
+                    kk = ir.ekids(n_)
+                    c = norm.norm_cmp(ir.sx(kk[0]), is_subject)
+                    k_ = norm.int_of(c[2]) if c is not None else None
+                    if k_ is not None:
+                        truth = {"==": v == k_, "!=": v != k_, "<": v < k_, "<=": v <= k_, ">": v > k_, ">=": v >= k_}[c[0]]
+                        return enum_of(kk[1] if truth else kk[2], depth + 1)
+                fv = fold(n_)
+                if fv is not None:
+                    return {0: "big_endian", 1: "little_endian", 2: "mixed"}.get(fv, "value %s" % fv)
+                return None
+            got.add(enum_of(ir.ekids(end[1])[0]))
+        table[label] = got
+    want = {"most significant byte first": {"big_endian"}, "least significant byte first": {"little_endian"}, "neither": {"mixed"}}
+    if inspected_other:
+        rep.violates("C20.endian", name, "inspected byte", where=where, detail="the decision inspects a byte other than element 0 of the copied constant")
     else:
-        rep.violates("C20.endian", name, "case table", where=d.where(sw[0]),
-                     detail="probe %#x: expected %s, found %s" % (probe[1], want, table))
+        rep.holds("C20.endian", name, "inspected byte", where=where, detail="%s[0]" % arr)
+    if any(None in g or not g for g in table.values()):
+        rep.inconclusive("C20.endian", name, "case table", where=where, detail="the result is not decidable for every value of the inspected byte: %s" % {k: sorted(map(str, g)) for k, g in table.items()})
+    elif table == want:
+        rep.holds("C20.endian", name, "case table", where=where, detail="probe %#x: byte %#x -> big, %#x -> little, other -> mixed" % (probe_val, msb, lsb))
+        rep.holds("C20.endian", name, "single decision", where=where, detail="every result depends on the probe byte")
+    else:
+        bad_lab = [k for k in want if table[k] != want[k]][0]
+        rep.violates("C20.endian", name, "case table", where=where,
+                     detail="probe %#x: when the first byte in memory is the %s the function yields %s, expected %s" % (probe_val, bad_lab.replace(" first", ""), sorted(table[bad_lab]), sorted(want[bad_lab])))
 
 
 def run(tier):
